@@ -18,9 +18,10 @@
 -/
 import PyGqlModel.Ty
 import PyGqlModel.Generated.Scalars
+import PyGqlModel.PyNum
 
 namespace PyGql.Coerce
-open PyGql PyGql.Generated.Scalars
+open PyGql PyGql.Generated.Scalars PyGql.PyNum
 
 /-! ### values -/
 
@@ -33,7 +34,7 @@ inductive Flt where
   | ofBool (b : Bool)
   deriving DecidableEq, Repr, Inhabited
 
-/-- what kind of IEEE value a Python float is (observed by the harness with `math.isfinite` / `math.isnan`) -/
+/-- what kind of IEEE value a Python float is (`f != f`, `f in (inf, -inf)`) -/
 inductive FCls where
   | finite | inf | nan
   deriving DecidableEq, Repr, Inhabited
@@ -51,28 +52,27 @@ inductive PV where
 
 def PV.isNone : PV → Bool | .none => true | _ => false
 
-/-- JSON values of a request's `variables`. Strings and floats carry what Python's own builtins say
-    about them (observed by the harness, universally quantified in the theorems):
-    `float`: canonical repr, `int(f)` when `f.is_integer()`, and its class (finite / ±inf / nan);
-    `str`: `int(s, 10)` when it parses, `float(s)` (repr, integral value, class) when it parses. -/
+/-- JSON values of a request's `variables`. A float is its number lexeme (Python's `repr` of the double: `1.5`, `1e+16`,
+    `-0.0`, `inf`, `nan`); what `int()` / `float()` / `is_integer()` make of strings and floats is computed by the lexeme
+    model `PyNum`, not supplied from outside. -/
 inductive JV where
   | null
   | bool (b : Bool)
   | int (n : Int)
-  | float (text : String) (integral : Option Int) (cls : FCls)
-  | str (s : String) (int10 : Option Int) (flt : Option (String × Option Int × FCls))
+  | float (text : String)
+  | str (s : String)
   | list (l : List JV)
   | obj (kvs : List (String × JV))
   deriving Repr, Inhabited
 
 def JV.isNull : JV → Bool | .null => true | _ => false
 
-/-- GraphQL value literals (`IntValue` carries the integer its canonical text denotes, `FloatValue` its text
-    and the class of `float(text)`: `1e999` is +inf). -/
+/-- GraphQL value literals (`IntValue` carries the integer its canonical text denotes, `FloatValue` its text:
+    `float("1e999")` is +inf, as `PyNum.pyFloat` computes). -/
 inductive Lit where
   | null
   | int (n : Int)
-  | float (text : String) (cls : FCls)
+  | float (text : String)
   | str (s : String)
   | bool (b : Bool)
   | enum (name : String)
@@ -109,9 +109,26 @@ inductive NamedT where
   | input (fields : List InField)
   deriving Repr, Inhabited
 
+/-- what a custom scalar's own `parse` / `parse_literal` does with an input (user code: an arbitrary partial function).
+    `refused`: it raised `ValueError` / `TypeError` (→ `ScalarParsingError`, the input is rejected);
+    `raised`: any other exception, which `ScalarType.parse` lets through. -/
+inductive ParseOut where
+  | value (pv : PV)
+  | refused
+  | raised
+  deriving Repr, Inhabited
+
+def ParseOut.toR : ParseOut → R
+  | .value pv => .ok pv
+  | .refused => .error .coercion
+  | .raised => .error .internal
+
+/-- A registry: the named input types, and — as PARAMETERS — the behaviour of the custom scalars' own parsers
+    (`ScalarType(name, parse=…, parse_literal=…)`), by scalar name. Nothing is assumed about them in the model. -/
 structure Reg where
   types : List (String × NamedT)
-  deriving Repr, Inhabited
+  customParse : String → JV → ParseOut
+  customParseLiteral : String → Lit → ParseOut
 
 def Reg.get? (r : Reg) (n : String) : Option NamedT :=
   match r.types.find? (fun p => p.1 == n) with
@@ -175,22 +192,37 @@ def mapEC {α β : Type} (f : α → Except Err β) : List α → Except Err (Li
 def rangeChecked (n : Int) (result : PV) : R :=
   if intInRange n then .ok result else .error .coercion
 
-/-- `coerce_int` on a JSON value -/
+def clsOf : Dbl → FCls
+  | .finite _ _ _ => .finite
+  | .inf _ => .inf
+  | .nan => .nan
+
+/-- `coerce_int` on a JSON value; the branches in the order of the source (`Generated.Scalars.coerceIntBranches`) -/
 def coerceInt : JV → R
   | .bool b => rangeChecked (if b then 1 else 0) (.bool b)      -- isinstance(True, int): numeric = maybe_int
   | .int n => rangeChecked n (.int n)
-  | .float _ (some k) _ => rangeChecked k (.int k)               -- numeric = int(f); numeric == f
-  | .float _ none .inf => .error .internal                       -- int(inf): OverflowError, not caught by ScalarType.parse
-  | .float _ none _ => .error .coercion                          -- numeric != f; int(nan): ValueError
-  | .null => .error .coercion
-  | .str s i10 flt =>
-    if s == "" then .error .coercion
-    else match i10 with
-      | some n => rangeChecked n (.int n)
+  | .float t =>
+    match pyFloat t with
+    | none => .error .internal                                   -- a JSON float's repr is always a float lexeme
+    | some d =>
+      match d.integral with
+      | some k => rangeChecked k (.int k)                        -- numeric = int(f); numeric == f
       | none =>
-        match flt with
-        | some (_, some k, _) => rangeChecked k (.int k)         -- float(s).is_integer()
-        | _ => .error .coercion
+        match d with
+        | .inf _ => .error .internal                             -- int(inf): OverflowError, not caught by ScalarType.parse
+        | _ => .error .coercion                                  -- numeric != f; int(nan): ValueError
+  | .null => .error .coercion
+  | .str s =>
+    if s == "" then .error .coercion
+    else match pyInt10 s with
+      | some n => rangeChecked n (.int n)                        -- int(maybe_int, 10)
+      | none =>
+        match pyFloat s with
+        | some d =>
+          match d.integral with
+          | some k => rangeChecked k (.int k)                    -- float(s).is_integer(): int(float_value)
+          | none => .error .coercion
+        | none => .error .coercion
   | .list _ => .error .coercion
   | .obj _ => .error .coercion
 
@@ -209,11 +241,14 @@ def coerceFloat : JV → R
   | .null => .error .coercion
   | .bool b => floatChecked .finite (.float (.ofBool b))
   | .int n => floatChecked .finite (.float (.ofInt n))
-  | .float t _ c => floatChecked c (.float (.text t))
-  | .str s _ flt =>
+  | .float t =>
+    match pyFloat t with
+    | some d => floatChecked (clsOf d) (.float (.text t))
+    | none => .error .internal
+  | .str s =>
     if s == "" then .error .coercion
-    else match flt with
-      | some (r, _, c) => floatChecked c (.float (.text r))
+    else match pyFloat s with
+      | some d => floatChecked (clsOf d) (.float (.text s))     -- float(maybe_float)
       | none => .error .coercion
   | .list _ => .error .coercion                                  -- float([..]) : TypeError
   | .obj _ => .error .coercion
@@ -224,8 +259,8 @@ def pyStr : JV → String
   | .bool true => "True"
   | .bool false => "False"
   | .int n => toString n
-  | .float t _ _ => t
-  | .str s _ _ => s
+  | .float t => t
+  | .str s => s
   | .list _ => ""
   | .obj _ => ""
 
@@ -234,8 +269,8 @@ def pyTruthy : JV → Bool
   | .null => false
   | .bool b => b
   | .int n => n != 0
-  | .float _ i _ => i != some 0
-  | .str s _ _ => s != ""
+  | .float t => (match pyFloat t with | some d => d.truthy | none => true)
+  | .str s => s != ""
   | .list l => !l.isEmpty
   | .obj k => !k.isEmpty
 
@@ -263,8 +298,8 @@ def pvOfJson : JV → PV
   | .null => .none
   | .bool b => .bool b
   | .int n => .int n
-  | .float t _ _ => .float (.text t)
-  | .str s _ _ => .str s
+  | .float t => .float (.text t)
+  | .str s => .str s
   | .list l => .list (pvOfJsonL l)
   | .obj kvs => .dict (pvOfJsonF kvs)
 def pvOfJsonL : List JV → List PV
@@ -274,6 +309,23 @@ def pvOfJsonF : List (String × JV) → List (String × PV)
   | [] => []
   | (k, v) :: xs => (k, pvOfJson v) :: pvOfJsonF xs
 end
+
+/-- `default_scalar(...)`: `parse = _identity` -/
+def defaultScalarParse (_ : String) (v : JV) : ParseOut := .value (pvOfJson v)
+
+/-- `default_scalar(...)`: `parse_literal = lambda node, _: node.value` (`IntValue.value` / `FloatValue.value` are the TEXT);
+    a node without `.value` raises AttributeError twice in `ScalarType.parse_literal` and escapes -/
+def defaultScalarParseLiteral (_ : String) (l : Lit) : ParseOut :=
+  match l with
+  | .int n => .value (.str (toString n))
+  | .float t => .value (.str t)
+  | .str s => .value (.str s)
+  | .bool b => .value (.bool b)
+  | _ => .raised
+
+/-- a registry whose custom scalars are all `default_scalar`s (what `build_schema` makes of an SDL `scalar X`) -/
+def Reg.ofTypes (types : List (String × NamedT)) : Reg :=
+  { types := types, customParse := defaultScalarParse, customParseLiteral := defaultScalarParseLiteral }
 
 /-- `EnumType.get_value` -/
 def getValue (values : List (String × PV)) (name : String) : R :=
@@ -286,11 +338,11 @@ def kindName : NamedT → String
   | .custom => "<custom>" | .enum _ => "<enum>" | .input _ => "<input>"
 
 def litKind : Lit → String
-  | .int _ => "int" | .float _ _ => "float" | .str _ => "str" | .bool _ => "bool"
+  | .int _ => "int" | .float _ => "float" | .str _ => "str" | .bool _ => "bool"
   | .null => "null" | .enum _ => "enum" | .list _ => "list" | .obj _ => "obj" | .var _ => "var"
 
 def isScalarLit : Lit → Bool
-  | .int _ => true | .float _ _ => true | .str _ => true | .bool _ => true
+  | .int _ => true | .float _ => true | .str _ => true | .bool _ => true
   | _ => false
 
 /-- `_typed_coerce(coerce_, *types)`: node classes outside the table raise `TypeError` (→ ScalarParsingError) -/
@@ -302,18 +354,15 @@ def admits (k : NamedT) (l : Lit) : Bool :=
 /-- `ScalarType.parse_literal` of the specified scalars (`coerce_(node.value)`) and of `default_scalar` -/
 def parseLiteral (k : NamedT) (l : Lit) : R :=
   match k with
-  | .custom =>
-    match l with
-    | .int n => .ok (.str (toString n))      -- IntValue.value is the TEXT
-    | .float t _ => .ok (.str t)
-    | .str s => .ok (.str s)
-    | .bool b => .ok (.bool b)
-    | _ => .error .internal
+  | .custom => .error .internal              -- custom scalars go through `Reg.customParseLiteral` (see `vfaCore`)
   | _ =>
     if admits k l then
       match k, l with
       | .int, .int n => rangeChecked n (.int n)            -- coerce_int("<digits>")
-      | .float, .float t c => floatChecked c (.float (.text t))     -- coerce_float("<text>")
+      | .float, .float t =>                                          -- coerce_float("<text>")
+        match pyFloat t with
+        | some d => floatChecked (clsOf d) (.float (.text t))
+        | none => .error .internal
       | .float, .int n => floatChecked .finite (.float (.ofInt n))  -- coerce_float("<digits>")
       | .string, .str s => .ok (.str s)
       | .boolean, .bool b => .ok (.bool b)
@@ -413,10 +462,10 @@ def coerceCore (reg : Reg) (rec : Ty → JV → R) (t : Ty) (v : JV) : R :=
       | some .string => parseString v
       | some .boolean => parseBool v
       | some .id => parseId v
-      | some .custom => .ok (pvOfJson v)
+      | some .custom => (reg.customParse n v).toR
       | some (.enum vs) =>
         match v with
-        | .str s _ _ => getValue vs s
+        | .str s => getValue vs s
         | _ => .error .coercion
       | some (.input fs) => coerceInputObject rec fs v
       | none => .error .internal
@@ -471,6 +520,7 @@ def vfaCore (reg : Reg) (rec : Ty → Lit → R) (t : Ty) (l : Lit) : R :=
         match l with
         | .enum name => getValue vs name
         | _ => .error .coercion
+      | some .custom => if isScalarLit l then (reg.customParseLiteral n l).toR else .error .coercion
       | some k => if isScalarLit l then parseLiteral k l else .error .coercion
       | none => .error .internal
     | .nonNull _ => .error .internal     -- raise TypeError("Invalid type for input coercion")
